@@ -809,6 +809,54 @@ def check_pulls(ctx: Context, rep, rule: str) -> None:
                construct=f"threads = {norm(text(threads_arg)) if threads_arg else None}",
                message="number of outstanding shard tasks is the configured "
                "thread count")
+        # one task = one shard of the `files` argument, opened (not decoded)
+        # by the worker: the task stream is <files>.into_iter() / .iter() /
+        # .drain(..), the mapped function is get_shard_progress applied to
+        # its parameter (a path or a closure whose body is that one call),
+        # and `threads` is the function's own parameter (not shadowed)
+        params = [norm(text(p)).split(":")[0].strip().removeprefix("mut ")
+                  for p in fn.raw.get("inputs", [])] if hasattr(fn, "raw") else []
+        task_arg = c["args"][1] if len(c["args"]) > 1 else None
+        ok_tasks = kind(task_arg, "MethodCall") and task_arg["method"] in (
+            "into_iter", "iter", "drain") and kind(task_arg["recv"], "Path") \
+            and norm(text(task_arg["recv"])) == "files"
+        rep.ob(rule, bool(ok_tasks), loc=fn.loc(c), where=fn.qual,
+               construct=f"tasks = {norm(text(task_arg)) if task_arg else None}",
+               message="one task per shard file (a task that is a run of "
+               "shards makes every worker read its whole run ahead)")
+        f_arg = c["args"][0] if c["args"] else None
+        ok_f = False
+        if kind(f_arg, "Path"):
+            ok_f = norm(text(f_arg)).endswith("get_shard_progress")
+        elif kind(f_arg, "Closure") and len(f_arg.get("inputs", [])) == 1:
+            b = f_arg["body"]
+            while kind(b, "Block") and len(b.get("stmts", [])) == 1:
+                b = b["stmts"][0]
+                if kind(b, "ExprStmt"):
+                    b = b.get("expr", b)
+            pname = f_arg["inputs"][0].get("name")
+            if kind(b, "Call") and norm(text(b["func"])).endswith(
+                    "get_shard_progress") and len(b["args"]) == 1:
+                a0 = b["args"][0]
+                inner = a0["expr"] if kind(a0, "Ref") else a0
+                ok_f = kind(inner, "Path") and norm(text(inner)) == pname
+        rep.ob(rule, ok_f, loc=fn.loc(c), where=fn.qual,
+               construct=f"worker function = {norm(text(f_arg))[:70] if f_arg else None}",
+               message="the worker opens one shard (get_shard_progress); "
+               "decoding / collecting examples in the worker reads ahead "
+               "whole shards' worth of decoded data and moves decode failures "
+               "into the worker, where a panic reads as end of stream")
+        shadows = [n for n in walk(fn.body) if n.get("k") == "Local" and
+                   isinstance(n.get("pat"), dict) and any(
+                       x.get("k") == "PIdent" and x.get("name") == "threads"
+                       for x in walk(n["pat"]))]
+        rep.ob(rule, not shadows, loc=fn.loc(shadows[0]) if shadows else
+               fn.loc(c), where=fn.qual,
+               construct=(norm(text(shadows[0]))[:70] if shadows
+                          else "threads is the parameter"),
+               message="the thread count handed to parallel_map is the "
+               "caller's (a clamp against the number of files panics for an "
+               "empty list and changes the configured parallelism)")
     nx = ctx.rust.fn(PM, "<Iterator for ParallelMap>::next")
     pulls = [n for n in nx.method_calls("next") if "iter" in norm(text(n["recv"]))]
     loops = [n for n in walk(nx.body) if n.get("k") in ("While", "For", "Loop")]
